@@ -1556,12 +1556,25 @@ def scheduler_drain_rules(ctx, rule="R-EXIT"):
     f = ctx.fn(rule, RQ, "worker/idle-only-when-drained")
     if f is not None:
         HT = r"may_queue::spmc::Local::has_tasks|may::crossbeam_queue_shim::Local::has_tasks"
+        # (F32) the other way out is the run budget: the worker leaves with work queued, but only after posting its own wakeup event, so it
+        # does not go idle - the next select returns at once and runs the queue again
+        WAKE = ctx.an.sites(f, Call(r"may::io::sys::\w+::Selector::wakeup"), "may")
+        def only_through(pred, blocked_sites, inst, why, bad_why):
+            blk, good = ctx.edge_blocker(f, pred) if pred is not None else (None, set())
+            r = ctx.an.reach(f, [Point(0, 0)], blocked=set(blocked_sites) | WAKE, blocked_edges=blk)
+            bad = [x for x in f.ret_points() if x in r]
+            if pred is not None and not good:
+                ctx.missing(rule, RQ, inst, "no guard edge found for `%s`" % why); return
+            ctx.ob(rule, RQ, inst, not bad, why if not bad else bad_why, f.where(bad[0]) if bad else f.where(),
+                   detail=ctx.an.fmt_path(f, ctx.an.path(f, [Point(0, 0)], bad, blocked=set(blocked_sites) | WAKE, blocked_edges=blk)) if bad else None)
         if ctx.an.sites(f, Call(HT, transitive=False), "must"):
-            ctx.guarded(RQ, Ev("ret"), call_false(HT), "worker/idle-only-when-drained", "a worker leaves run_queued_tasks only after it saw its local queue empty behind a drain of its global queue",
-                        rule=rule, pred_label="edge `local.has_tasks()` is false")
-            ctx.order(RQ, Call(re.escape(CG), transitive=False), Ev("ret"), "worker/global-drained-before-idle", "the worker's global queue is drained (collect_global) before the worker goes idle", rule=rule)
+            only_through(call_false(HT), (), "worker/idle-only-when-drained", "a worker leaves run_queued_tasks only after it saw its local queue empty behind a drain of its global queue (or on its run budget, after posting its wakeup event)",
+                         "run_queued_tasks can return while the local queue was not seen empty and without posting the worker's wakeup event: the worker sleeps in its selector on queued coroutines")
+            only_through(None, ctx.an.sites(f, Call(re.escape(CG), transitive=False), "must"), "worker/global-drained-before-idle", "the worker's global queue is drained (collect_global) before the worker goes idle",
+                         "run_queued_tasks can return to the selector (go idle) without having drained the worker's global queue")
         else:
-            ctx.guarded(RQ, Ev("ret"), variant_of_call(r".*::pop", "None"), "worker/idle-only-when-drained", "a worker leaves run_queued_tasks only when its queue is empty", rule=rule, pred_label="edge `local.pop()` is None")
+            only_through(variant_of_call(r".*::pop", "None"), (), "worker/idle-only-when-drained", "a worker leaves run_queued_tasks only when its queue is empty (or on its run budget, after posting its wakeup event)",
+                         "run_queued_tasks can return while its queue is not empty and without posting the worker's wakeup event")
     g = ctx.fn(rule, CG, "worker/collect-until-empty")
     if g is not None:
         ctx.guarded(CG, Ev("ret"), call_true(r"smallvec::SmallVec::is_empty"), "worker/collect-until-empty", "collect_global returns only after bulk_pop returned an empty batch (a non-empty batch dropped at the return would destroy its coroutines)",
@@ -2497,3 +2510,94 @@ def sleep_relative_to_fresh_clock(ctx, rule="R-ORDER"):
                "an io timeout that came due meanwhile fires late by the run time" % (" and the local queue" if late_runs else ""), g.where(sorted(sch)[0]))
     if n < 2:
         ctx.missing(rule, TL, "sleep/relative-to-fresh-clock", "expected the timer thread and a selector, found %d instance(s)" % n)
+
+
+# ------------------------------------------------------------------------------------------------
+# F31: user code (a coroutine_local initialiser) never runs while the map of all keys is mutably borrowed
+
+def local_init_runs_unborrowed(ctx, rule="R-ORDER"):
+    LK = "may::local::LocalKey"
+    an = ctx.an
+    fns = {k: g for k, g in ctx.prog.fns.items() if k.startswith(LK + "::")}
+    BM = Call(r"(std|core)::cell::RefCell::(borrow_mut|try_borrow_mut)", transitive=False)
+    def live_mut_borrow(g, site):
+        """is `site` inside the live range of a RefMut created in g?"""
+        for b in an.sites(g, BM, "must"):
+            drops = set(pt for pt in g.points() if g.is_term(pt) and g.node(pt)["t"] == "drop" and "RefMut" in (g.node(pt).get("ty") or ""))
+            if site in an.reach(g, an.after(g, b), blocked=drops): return b
+        return None
+    def parents(cid):
+        out = []
+        for k, g in fns.items():
+            for pt in g.points():
+                if g.is_term(pt) and g.node(pt)["t"] == "call" and any(norm(c) == cid for c in closure_args(g, g.node(pt))): out.append((g, pt))
+        return out
+    inits = []
+    for k, g in sorted(fns.items()):
+        for pt in g.points():
+            if not g.is_term(pt): continue
+            t = g.node(pt)
+            if t["t"] == "call" and callee_name(t) is None and "f" in t and leaf_field(simplify(trace_operand(g, t["f"]))) == LK + ".__init":
+                inits.append((g, pt))
+    if not inits:
+        ctx.missing(rule, LK + "::with", "local/init-runs-unborrowed", "the call of LocalKey.__init was not found"); return
+    for g, pt in inits:
+        bad = None; cur = [(g, pt)]; depth = 0
+        while cur and bad is None and depth < 4:
+            nxt = []
+            for h, q in cur:
+                b = live_mut_borrow(h, q)
+                if b is not None: bad = (h, b); break
+                if "{closure" in h.id: nxt += parents(h.id)
+            cur = nxt; depth += 1
+        ctx.fns_touched.add(g.id)
+        ctx.ob(rule, LK + "::with", "local/init-runs-unborrowed", bad is None, "the initialiser of a coroutine local runs while the map of the keys is not borrowed" if bad is None else
+               "the initialiser of a coroutine local runs while the map that holds every key is mutably borrowed (%s): an initialiser that reads another coroutine local panics with "
+               "`RefCell already borrowed` - the coroutine dies on first use of the key" % bad[0].where(bad[1]), g.where(pt))
+
+
+# ------------------------------------------------------------------------------------------------
+# F32: a worker goes back to its selector after a bounded number of coroutine runs
+
+def worker_run_budget_rules(ctx, rule="R-EXIT"):
+    """every cycle of run_queued_tasks that runs a coroutine passes a budget decision `counter >= K` (counter advanced by a non-zero constant on
+    the cycle) whose true edge leaves the function without running anything else, after posting the worker's own wakeup event (otherwise the
+    selector would sleep on a non-empty local queue). Without it a coroutine that keeps yielding keeps the local queue non-empty for ever, select()
+    is never called again on that worker and the coroutines blocked in io there are never resumed although their data arrived (finding F32)."""
+    S = "may::scheduler::Scheduler"; RQ = S + "::run_queued_tasks"
+    f = ctx.fn(rule, RQ, "worker/run-budget")
+    if f is None: return
+    an = ctx.an
+    RUN = an.sites(f, Call(r"may::coroutine_impl::run_coroutine", transitive=False), "must")
+    WK = an.sites(f, Call(r"may::io::sys::\w+::Selector::wakeup"), "may")
+    if not RUN:
+        ctx.missing(rule, RQ, "worker/run-budget", "no run_coroutine in run_queued_tasks"); return
+    def advancing(c):
+        c = _sv(c)
+        if c[0] == "call" and (c[2] or "").endswith("wrapping_add"):
+            st = simplify(trace_operand(f, f.term(c[1])["args"][1])); return st[0] == "const" and st[2] not in (None, 0, "0")
+        if c[0] == "bin" and c[1] == "Add": return _sv(c[3])[0] == "const" and _sv(c[3])[2] not in (None, 0, "0")
+        if c[0] == "field" and c[2] == "(tuple)": return advancing(c[1])
+        if c[0] == "bin" and c[1] == "AddWithOverflow": return _sv(c[3])[0] == "const" and _sv(c[3])[2] not in (None, 0, "0")
+        if c[0] == "phi": return any(advancing(z) for z in c[2] if _sv(z)[0] != "const")
+        return False
+    def budget(a):
+        if a.kind != "cmp": return False
+        if a.op in ("Ge", "Gt", "Eq") and _sv(a.b)[0] == "const" and advancing(a.a): return True
+        if a.op in ("Le", "Lt", "Eq") and _sv(a.a)[0] == "const" and advancing(a.b): return True
+        return False
+    exits = set(); nowake = []
+    for (bi, tb, lab) in ctx.edges(f, budget):
+        r = an.reach(f, [Point(tb, 0)], blocked=RUN)
+        if not any(x in r for x in RUN) and any(x in r for x in f.ret_points()) and not any(x in an.reach(f, [Point(tb, 0)]) for x in RUN):
+            exits.add(Point(bi, len(f.blocks[bi]["st"])))
+            r2 = an.reach(f, [Point(tb, 0)], blocked=WK)
+            if any(x in r2 for x in f.ret_points()): nowake.append(bi)
+    bad = [rpt for rpt in sorted(RUN) if rpt in an.reach(f, an.after(f, rpt), blocked=exits)]
+    ctx.ob(rule, RQ, "worker/run-budget", not bad,
+           "every cycle of run_queued_tasks that runs a coroutine passes a `counter >= K` decision that leaves the function (%d decision(s))" % len(exits) if not bad else
+           "run_queued_tasks can run coroutine after coroutine without ever returning to the selector: a coroutine that keeps yielding keeps the local queue non-empty, "
+           "select() is never called again on this worker and coroutines blocked in io there are never resumed", f.where(bad[0]) if bad else f.where(sorted(RUN)[0]))
+    ctx.ob(rule, RQ, "worker/run-budget-exit-posts-wakeup", bool(exits) and not nowake,
+           "leaving with work still queued posts the worker's own wakeup event, so the next select returns at once" if exits and not nowake else
+           "run_queued_tasks can leave on its budget without posting the worker's wakeup event: the selector then sleeps although the local queue is not empty", f.where())
